@@ -154,6 +154,7 @@ enum Kind
   P_FNPTR_CELL,
   P_TABLE_INDEX,
   P_COMPARE,
+  P_NESTED,
   K_COUNT
 };
 static const char* kKind[] = { "create",       "destroy",      "malloc",     "free",        "free_dead",
@@ -164,7 +165,7 @@ static const char* kKind[] = { "create",       "destroy",      "malloc",     "fr
                                "store_field",  "store_struct", "cast",       "opaque",      "guest_write_cell",
                                "app_ptr",      "grant",        "invoke_echo", "invoke_retptr", "invoke_callback",
                                "volatile_ptr_op", "array_of_pointers_copy", "volatile_to_volatile_assign", "function_pointer_cell",
-                               "table_index", "pointer_compare" };
+                               "table_index", "pointer_compare", "nested_struct" };
 static_assert(sizeof(kKind) / sizeof(kKind[0]) == K_COUNT);
 
 enum TypeTag
@@ -379,6 +380,7 @@ struct MemWorld : World
           o.a[1] = (int64_t)r.below(5); // operand type
           o.a[2] = (int64_t)r.below(3); // wrapper
           o.a[3] = interesting_n(r);
+          o.a[4] = (int64_t)r.below(2); // add: integer operand on the left
           break;
         case P_INC:
           o.a[1] = (int64_t)r.below(4);
@@ -396,7 +398,7 @@ struct MemWorld : World
           break;
         case P_CAST:
           o.a[1] = (int64_t)r.below(T_COUNT);
-          o.a[2] = (int64_t)r.below(2);
+          o.a[2] = (int64_t)r.below(4);
           break;
         case G_WRITE_CELL:
         case I_RETPTR:
@@ -417,6 +419,12 @@ struct MemWorld : World
           o.a[4] = (int64_t)r.below(3); // plain / tainted / in sandbox memory
           break;
         }
+        case P_NESTED:
+          o.a[1] = interesting_bits(r, size); // what the guest put into in.p
+          o.a[2] = r.chance(1, 4) ? 0 : interesting_bits(r, size); // ... and into node
+          o.a[3] = (int64_t)r.below(6); // which access
+          o.a[4] = (int64_t)(r.next() >> 1);
+          break;
         case P_COMPARE:
           o.a[1] = (int64_t)r.below(64); // second sandbox
           o.a[2] = r.chance(1, 6) ? 0 : (int64_t)r.below((uint64_t)size); // representation in the first cell
@@ -1202,7 +1210,12 @@ struct MemWorld : World
           using TT = std::remove_reference_t<decltype(t)>;
           using T = std::remove_pointer_t<decltype(t.UNSAFE_unverified())>;
           with_n(s, nt, wrap, n, [&](auto& nv) {
-            if (op.kind == P_ADD) {
+            if (op.kind == P_ADD && (op.a[4] & 1)) {
+              // the integer on the left: "3 + p", "tainted<int> + p", "cell + p" are pointer arithmetic as well
+              C->probe("pointer_arithmetic_with_integer_on_the_left");
+              TT r = nv + t;
+              push<T>(s, r, opn);
+            } else if (op.kind == P_ADD) {
               TT r = t + nv;
               push<T>(s, r, opn);
             } else if (op.kind == P_SUB) {
@@ -1446,6 +1459,13 @@ struct MemWorld : World
     TP<int> qv = nullptr;
     if (q && q->sbx == s && (op.a[2] % 4) != 0)
       qv = std::get<TP<int>>(q->v);
+    else if (q && q->sbx != s && S[(size_t)q->sbx].state == 1 && (op.a[2] % 4) != 0 && (op.a[2] & 8)) {
+      // a pointer into ANOTHER live sandbox: nothing stops the application from storing it here; what the cell then
+      // holds is still computed relative to the sandbox the cell lives in, never relative to the other one
+      qv = std::get<TP<int>>(q->v);
+      if (qv != nullptr)
+        C->probe("pointer_of_another_sandbox_stored");
+    }
     auto& pp = std::get<TP<int*>>(h->v);
     uint32_t off = (uint32_t)(haddr(*h) - S[(size_t)s].base());
     bool as_null = (op.a[2] % 4) == 0;
@@ -1547,6 +1567,13 @@ struct MemWorld : World
             auto back = rlbox::sandbox_const_cast<T0*>(ct);
             if ((uintptr_t)back.UNSAFE_unverified() != before)
               C->violate("C03", "cast_changed_address@cast", "const cast round trip moved the pointer");
+          }
+          if (op.a[2] & 2) {
+            // static_cast to void* and on to the target type
+            rlbox::tainted<void*, Sbx> vp = rlbox::sandbox_static_cast<void*>(t);
+            TP<U> viav = rlbox::sandbox_static_cast<U*>(vp);
+            if ((uintptr_t)vp.UNSAFE_unverified() != before || (uintptr_t)viav.UNSAFE_unverified() != before)
+              C->violate("C03", "cast_changed_address@cast", "static cast through void* moved the pointer");
           }
           TP<U> r = rlbox::sandbox_reinterpret_cast<U*>(t);
           if ((uintptr_t)r.UNSAFE_unverified() != before)
@@ -2098,6 +2125,119 @@ struct MemWorld : World
                  (int)got);
   }
 
+  // A struct with a struct-typed field: field addresses, loads and stores of the pointer inside the inner struct,
+  // and whole-struct copies sandbox -> application -> sandbox (conversions recurse into the inner struct).
+  void do_nested(const Op& op)
+  {
+    int s = pick_sbx(op.a[0]);
+    SbxState& st = S[(size_t)s];
+    if (st.state != 1 || st.size() < 4096)
+      return;
+    // two objects at fixed, disjoint, 8-aligned places of the region (the second one on its last bytes)
+    uint32_t off1 = (uint32_t)(st.size() / 2 + 64), off2 = (uint32_t)(st.size() - sizeof(GOuter));
+    off2 &= ~(uint32_t)7;
+    GOuter g;
+    std::memset(&g, 0, sizeof g);
+    g.x = (int32_t)op.a[4];
+    g.in.a = (int32_t)(op.a[4] >> 20);
+    g.in.p = (PT)(uint32_t)op.a[1];
+    g.node = (PT)(uint32_t)op.a[2];
+    g.y = -7;
+    memcpy(st.impl()->gptr(off1), &g, sizeof g);
+    C->fired("F1_hostile_cell_value");
+    auto want = [&](PT rep) -> uintptr_t { return rep == 0 ? 0 : st.base() + (rep & (st.size() - 1)); };
+    int which = (int)((uint64_t)op.a[3] % 6);
+    uintptr_t got_p = 1, got_node = 1;
+    long got_x = 0, got_y = 0;
+    int got_a = 0;
+    GOuter after;
+    std::memset(&after, 0, sizeof after);
+    Outcome o = attempt([&] {
+      auto o1 = st.sb->UNSAFE_accept_pointer(reinterpret_cast<SimOuter*>(st.base() + off1));
+      auto o2 = st.sb->UNSAFE_accept_pointer(reinterpret_cast<SimOuter*>(st.base() + off2));
+      switch (which) {
+        case 0: // addresses of fields of the inner struct
+          push<int>(s, &o1->in.a, "nested_struct");
+          push<int*>(s, rlbox::sandbox_reinterpret_cast<int**>(&o1->in.p), "nested_struct");
+          push<long>(s, &o2->y, "nested_struct");
+          break;
+        case 1: { // loads through the inner struct
+          TP<char> p = o1->in.p;
+          TP<SimNode> n = o1->node;
+          got_p = (uintptr_t)p.UNSAFE_unverified();
+          got_node = (uintptr_t)n.UNSAFE_unverified();
+          push<char>(s, p, "nested_struct");
+          push<SimNode>(s, n, "nested_struct");
+          break;
+        }
+        case 2: { // store into the inner struct: a pointer, then null
+          TP<char> v = rlbox::sandbox_reinterpret_cast<char*>(st.scratch);
+          o1->in.p = v;
+          memcpy(&after, st.impl()->gptr(off1), sizeof after);
+          if (after.in.p != (PT)((uintptr_t)v.UNSAFE_unverified() - st.base()))
+            C->violate("C04", "wrong_representation@nested_struct", "pointer stored into a field of an inner struct");
+          o1->in.p = nullptr;
+          memcpy(&after, st.impl()->gptr(off1), sizeof after);
+          if (after.in.p != 0)
+            C->violate("C04", "null_not_preserved@nested_struct", "null stored into a field of an inner struct reads %llu", (unsigned long long)after.in.p);
+          break;
+        }
+        case 3: { // inner struct copied out on its own
+          rlbox::tainted<SimInner, Sbx> in = o1->in;
+          got_p = (uintptr_t)in.p.UNSAFE_unverified();
+          got_a = in.a.UNSAFE_unverified();
+          got_node = want(g.node);
+          if (got_a != g.in.a)
+            C->violate("C04", "wrong_value@nested_struct", "int field of the inner struct");
+          push<char>(s, in.p, "nested_struct");
+          break;
+        }
+        default: { // whole struct out and back in (to the other object)
+          rlbox::tainted<SimOuter, Sbx> t = *o1;
+          got_p = (uintptr_t)t.in.p.UNSAFE_unverified();
+          got_node = (uintptr_t)t.node.UNSAFE_unverified();
+          got_x = t.x.UNSAFE_unverified();
+          got_y = t.y.UNSAFE_unverified();
+          got_a = t.in.a.UNSAFE_unverified();
+          if (got_x != g.x || got_y != g.y || got_a != g.in.a)
+            C->violate("C04", "wrong_value@nested_struct", "scalar fields of a struct with an inner struct: x %ld/%d y %ld/%d a %d/%d", got_x, g.x, got_y, g.y, got_a, g.in.a);
+          push<char>(s, t.in.p, "nested_struct");
+          push<SimNode>(s, t.node, "nested_struct");
+          if (which == 5 && !C->stop) {
+            *o2 = t;
+            memcpy(&after, st.impl()->gptr(off2), sizeof after);
+            auto norm = [&](PT rep) { return rep == 0 ? (PT)0 : (PT)(rep & (st.size() - 1)); };
+            if (after.in.p != norm(g.in.p) || after.node != norm(g.node) || after.x != g.x || after.y != g.y || after.in.a != g.in.a)
+              C->violate("C04",
+                         std::string((after.in.p == 0) != (g.in.p == 0) || (after.node == 0) != (g.node == 0) ? "null_not_preserved@" : "wrong_representation@") + "nested_struct",
+                         "struct with an inner struct copied sandbox->app->sandbox: in.p %llu -> %llu, node %llu -> %llu",
+                         (unsigned long long)g.in.p,
+                         (unsigned long long)after.in.p,
+                         (unsigned long long)g.node,
+                         (unsigned long long)after.node);
+            C->probe("struct_copied_through_application");
+          }
+          break;
+        }
+      }
+    });
+    C->ev("nested_struct %d reps %llu/%llu -> %s", which, (unsigned long long)g.in.p, (unsigned long long)g.node, oname(o));
+    C->probe("struct_with_inner_struct_accessed");
+    if (C->stop)
+      return;
+    if (o != OK) {
+      C->violate("C04", "access_fails@nested_struct", "access %d to a struct inside the region: %s: %s", which, oname(o), g_last_abort_msg.c_str());
+      return;
+    }
+    if (which == 1 || which == 3 || which >= 4) {
+      if (got_p != want(g.in.p) || (which != 3 && got_node != want(g.node)))
+        C->violate("C04",
+                   std::string((got_p == 0) != (g.in.p == 0) || (which != 3 && (got_node == 0) != (g.node == 0)) ? "null_not_preserved@" : "wrong_address@") + "nested_struct",
+                   "pointer fields read through a struct with an inner struct (access %d)",
+                   which);
+    }
+  }
+
   void run(const Plan& p, Ctx& c) override
   {
     C = &c;
@@ -2248,6 +2388,9 @@ struct MemWorld : World
           break;
         case P_COMPARE:
           do_compare(op);
+          break;
+        case P_NESTED:
+          do_nested(op);
           break;
       }
       int live = 0;
